@@ -712,9 +712,9 @@ impl Property for C14 {
     }
     fn families(&self, tier: Tier) -> Vec<Family<Case>> {
         vec![
-            Family::random("expressions", tier.n(3000, 100_000), fam_exprs),
-            Family::random("once-ness", tier.n(1500, 30_000), fam_once),
-            Family::random("malformed", tier.n(2500, 40_000), fam_malformed),
+            Family::random("expressions", tier.n(12_000, 100_000), fam_exprs),
+            Family::random("once-ness", tier.n(6_000, 30_000), fam_once),
+            Family::random("malformed", tier.n(10_000, 40_000), fam_malformed),
         ]
     }
     fn judge(&self, case: &Case, _strict: bool) -> Verdict {
